@@ -21,6 +21,9 @@ def main():
                 r = c05.run_impl(case["case"])
                 r.pop("order", None)
                 out.append(r)
+            elif k == "op":
+                from harness.props import c01
+                out.append(c01.run_impl(case["case"]))
             elif k == "equiv":
                 from xgcm.grid_ufunc import _GridUFuncSignature as S
                 a, b = S.from_string(case["a"]), S.from_string(case["b"])
